@@ -150,7 +150,8 @@ class Spectrum:
     def _ufunc(self, ufunc, other, sampling='min', method='linear', fill_value=0):
 
         if isinstance(other, (int, float, list, tuple, np.ndarray)):
-            wave = self.wave
+            # the result must not share its wavelength array with the operand
+            wave = self.wave.copy()
             try:
                 value = ufunc(self.value, other)
             except ValueError:
